@@ -76,6 +76,43 @@ def lower_level_witness(Ap, bp, b, lb, ub, t_impl):
     return best
 
 
+def poisson_better_point(Ap, bp, w, b, lb, ub, xh):
+    """untrusted search (L-BFGS-B on the smooth convex negative log-likelihood, several starts) for an in-bound point with a lower weighted
+    Poisson negative log-likelihood than xh. Returns an in-bound float vector or None; how much better it is, is decided exactly by the model
+    (op poistan: tangent inequality at that point, theorem poisson_tangent_x)."""
+    from scipy.optimize import minimize
+    Ap = np.asarray(Ap, dtype=float); bp = np.asarray(bp, dtype=float)
+    ubf = np.where(np.isfinite(ub), ub, np.maximum(lb, 0) + 50.0)
+
+    def nll(x):
+        p = Ap @ x + bp
+        if np.any(p <= 0):
+            return np.inf
+        return float(np.sum(w * (p - b * np.log(p))))
+    best, fbest = None, np.inf
+    starts = [np.clip(xh, lb, ubf), (lb + ubf) / 2, lb + 0.25 * (ubf - lb), lb + 0.75 * (ubf - lb)]
+    for x0 in starts:
+        try:
+            res = minimize(nll, x0, method="L-BFGS-B", bounds=[(float(l), None if not np.isfinite(u) else float(u)) for l, u in zip(lb, ub)])
+        except Exception:  # noqa: BLE001
+            continue
+        z = np.clip(res.x, lb, ub)
+        fz = nll(z)
+        if np.isfinite(fz) and fz < fbest:
+            best, fbest = z, fz
+    return best
+
+
+# the limit on solver iterations a caller may pass through the documented **opt_kwargs (CLARABEL's name for it). dreye's contract: a solve
+# that stopped at its limit is retried with the fallback solver when the caller left the choice of solver to the library, and otherwise ends
+# in RuntimeError('Optimization did not converge.') - a fit that RETURNS is judged by the ordinary certificates.
+ITER_LIMITS = [1, 2, 3, 4, 6, 8, 12]
+# NOT judged (kept for reference, see the report of the round-5 strengthening): solver='SCS' with max_iters=k. SCS reports an iterate that
+# stopped at its iteration limit as 'optimal_inaccurate', which dreye accepts: on the unchanged tree lsq_linear(..., model='poisson',
+# solver='SCS', max_iters=1) returns intensities far from the minimum without any error.
+JUDGE_SCS_ITERATION_LIMIT = False
+
+
 def wfold(M, w):
     """exact diag(w) M (channel weights folded into capture matrix / baseline / target, the way K is)"""
     M = np.asarray(M)
@@ -133,6 +170,32 @@ def gen_target_whole(rng, S, kind):
     raise ValueError(kind)
 
 
+def gen_target_corner(tr, S, floor):
+    """an out-of-gamut target NEXT to the brightest (all sources at ub) or darkest (all at lb) corner of the gamut: the corner's capture with one
+    receptor pushed outward by 25 / 50 % (A' >= 0: no in-bound intensities reach it) and another pulled inward by 25 / 50 %. The two receptors
+    pull the sources in opposite directions, so the minimiser is a trade-off that depends on the weights (unlike a far-away target, whose
+    minimiser is the corner whatever the weights). Exactly representable; None when the system has a single receptor or no usable corner."""
+    lb, ub, Ap, bp, nf = S["lb"], S["ub"], S["Ap"], S["bp"], S["nf"]
+    if nf < 2:
+        return None
+    lo = Ap @ lb + bp
+    can_lo = bool(np.any(lo * 0.5 >= floor))
+    can_hi = bool(np.all(np.isfinite(ub)))
+    if not (can_lo or can_hi):
+        return None
+    hi_corner = can_hi and (not can_lo or tr.random() < 0.7)
+    d1, d2 = float(tr.choice([0.25, 0.5])), float(tr.choice([0.25, 0.5]))
+    if hi_corner:
+        b = Ap @ ub + bp
+        a_ = int(tr.integers(nf)); b_ = int((a_ + 1 + tr.integers(nf - 1)) % nf)
+        b[a_] *= 1 + d1; b[b_] *= 1 - d2
+    else:
+        b = lo.copy()
+        a_ = int(tr.choice(np.flatnonzero(lo * 0.5 >= floor))); b_ = int((a_ + 1 + tr.integers(nf - 1)) % nf)
+        b[a_] *= 1 - d1; b[b_] = b[b_] * (1 + d2) + 0.25
+    return np.clip(b, floor, 100.0)
+
+
 def run(R):
     import dreye
     from dreye.api.optimize.lsq_linear import lsq_linear, lsq_linear_excitation
@@ -148,9 +211,15 @@ def run(R):
               "array or a list of ints; the other arguments come in a randomly chosen legitimate representation (integer dtype when "
               "whole, Fortran order, strided view, list; the model gets the values). Every fourth system combines channel weights with a "
               "non-zero baseline, in capture units where the smallest channel extent is in [1,2) (excitation far from saturation). For these, for whole-number systems and half of the other systems with weights the excitation model is fitted a second time WITH the weights on a sub-batch (one "
-              "inside, the boundary, one outside target): in-gamut targets must be reproduced and their documented objective must be at "
-              "its minimum 0 (within eps x max(w,1/w)); minimality for the outside target is certified on the weighted captures and "
-              "recorded only (the weighted form of the objective is not documented). "
+              "inside, one outside and one more target, in an order of its own: in-gamut rows first / last / interleaved; through lsq_linear_excitation(W=) or through the estimator: "
+              "register_targets(B, W) [per-sample weights] or constructor w + register_targets(B) [channel weights], then fit(model='excitation') without a target): in-gamut targets must be reproduced and their documented objective must be at "
+              "its minimum 0 (within eps x max(w,1/w)); every row that is not in gamut must be minimal for ITS OWN row of weights on the weighted captures (model: weights folded "
+              "into captures, baseline and target like K): certified by a level certificate, or refuted by an in-bound point evaluated exactly by the model "
+              "(reported as model/implementation disagreement: the weighted form of the objective is the implementation's, it is not spelt out in the documentation). "
+              "Iteration limit: three quarters of the systems get one more Poisson fit of the whole batch with max_iter = 1..12 passed through **opt_kwargs, the solver "
+              "left to the library or chosen explicitly (CLARABEL): the fit either raises (RuntimeError 'did not converge' / SolverError: loud, fine) or returns, and a returned answer is judged by the "
+              "ordinary certificates of the objective (Poisson gap at the ordinary threshold, bounds, prediction; reproduction of in-gamut targets to the default-settings accuracy is recorded only). A Poisson answer that is not certified is refuted when an in-bound point z is exhibited whose "
+              "negative log-likelihood is lower by more than the granted 2e-2 x scale, bounded exactly by the tangent inequality at z (theorem poisson_tangent_x): predicate failure with z as witness. "
               "The performance option batch_size of all fits of a system is drawn from {1, 2, 3, 4 (zero-padded last group), 'full'}: the five "
               "targets are then solved jointly in groups; the certificates (gap, level certificate, in-gamut reproduction) judge each returned "
               "row on its own against that row's objective, however it was computed (a group's objective is the sum of its rows' objectives "
@@ -165,14 +234,14 @@ def run(R):
               "in-bound point with a lower objective is searched (LP bisection, untrusted) and evaluated exactly by the model: better by more "
               "than eps => the answer is not a global minimiser (predicate failure with that point as witness). "
               "Non-trivial: target outside the gamut or on its boundary, or baseline non-zero.")
-    kinds = ["inside", "inside", "boundary", "outside", "outside"]
-    WROWS = [0, 2, 3]
+    KINDS = ["inside", "inside", "boundary", "outside", "outside"]
     rows = []
     n_solver_err = [0]
     for si in range(nsys):
         k = "s%d" % si
         if not R.want(k):
             continue
+        kinds = KINDS
         rng = R.rng(1, si)
         FLOOR = 1.0 if si % 4 == 3 else 0.125
         whole = (si % 4 == 3)    # whole-number data (photon counts): targets reach dreye in an integer array
@@ -194,6 +263,15 @@ def run(R):
                     S["A"] = S["A"] / 2.0 ** j_; S["Ap"] = S["Ap"] / 2.0 ** j_
                 R.count("captures-of-order-one")
             B = np.array([np.maximum(gen_target(rng, S, kd), 0.125) for kd in kinds])
+            # the second outside target (own random stream; always for the systems with captures of order one, else every second system): next
+            # to a corner of the gamut, with two receptors pulling in opposite directions - its minimiser depends on the weights
+            tr = R.rng(10, si)
+            if both or tr.random() < 0.5:
+                bc_ = gen_target_corner(tr, S, 0.125)
+                if bc_ is not None:
+                    B[4] = bc_
+                    kinds = kinds[:4] + ["outside-corner"]
+        R.count("second-outside-target:%s" % kinds[4])
         nf, ns = S["nf"], S["ns"]
         ingamut = [kd in ("inside", "boundary") and bool(np.all(B[i] > FLOOR)) for i, kd in enumerate(kinds)]    # not raised to the floor
         wk = "vector" if both else str(rng.choice(["none", "vector"]))
@@ -268,43 +346,95 @@ def run(R):
         via_est = wk in ("none", "vector") and (si % 2 == 1 or bool(R.rng(7, si).integers(3) == 0))
         R.count("via:" + ("estimator" if via_est else "function"))
         c["via"] = "estimator" if via_est else "function"
-        if via_est:
-            import dreye
-            A_ = np.asarray(S["A"], dtype=float); nfe, nse = A_.shape
-            filt_ = np.hstack([np.zeros((nfe, 1)), A_, np.zeros((nfe, 1))]); src_ = np.hstack([np.zeros((nse, 1)), np.eye(nse), np.zeros((nse, 1))])
+        A_ = np.asarray(S["A"], dtype=float); nfe, nse = A_.shape
+        filt_ = np.hstack([np.zeros((nfe, 1)), A_, np.zeros((nfe, 1))]); src_ = np.hstack([np.zeros((nse, 1)), np.eye(nse), np.zeros((nse, 1))])
 
-            def mk_est(w_):
-                kw_ = {} if w_ is None else dict(w=w_)
-                e_ = dreye.ReceptorEstimator(filt_, domain=1.0, K=(1.0 if S["K"] is None else g["K"]), baseline=g["baseline"], sources=src_, lb=g["lb"], ub=g["ub"], **kw_)
-                if not np.array_equal(np.asarray(e_.A, dtype=float), A_):
-                    R.failA(dict(k=k), "harness: the estimator's capture matrix is not the intended A")
-                return e_
+        def mk_est(w_, k=k, S=S, g=g, A_=A_, filt_=filt_, src_=src_):
+            kw_ = {} if w_ is None else dict(w=w_)
+            e_ = dreye.ReceptorEstimator(filt_, domain=1.0, K=(1.0 if S["K"] is None else g["K"]), baseline=g["baseline"], sources=src_, lb=g["lb"], ub=g["ub"], **kw_)
+            if not np.array_equal(np.asarray(e_.A, dtype=float), A_):
+                R.failA(dict(k=k), "harness: the estimator's capture matrix is not the intended A")
+            return e_
+        # a solver iteration limit passed through **opt_kwargs (own random stream): three quarters of the systems get one more Poisson
+        # fit of the same batch with max_iter = 1..12, the solver left to the library (a solve that stops at the limit is retried
+        # with the fallback solver) or chosen explicitly (it must then end in RuntimeError). Whatever the limit: a fit that RETURNS is judged
+        # by the ordinary certificates; a raised RuntimeError / SolverError is loud and fine.
+        lr = R.rng(9, si)
+        lim = None
+        if lr.random() < 0.75:
+            lim = dict(max_iter=int(lr.choice(ITER_LIMITS)))
+            if lr.integers(2):
+                lim["solver"] = "CLARABEL"
+            R.count("iteration-limit:max_iter=%d:%s" % (lim["max_iter"], "solver chosen by the caller" if "solver" in lim else "solver left to the library"))
+        else:
+            R.count("iteration-limit:none")
+        c["iteration_limit"] = lim
+        stpl = opl = None
+        if via_est:
             est_w = mk_est(None if wk == "none" else g["W"]); est_1 = mk_est(None)
             stg, og = call(est_w.fit, g["B"], solver="CLARABEL", **bkw)
             stp, op_ = call(est_w.fit, g["B"], model="poisson", solver="CLARABEL", **bkw)
             ste, oe = call(est_1.fit, g["B"], model="excitation", **bkw)
+            if lim is not None:
+                stpl, opl = call(est_w.fit, g["B"], model="poisson", **bkw, **lim)
         else:
             stg, og = call(lsq_linear, g["A"], g["B"], lb=g["lb"], ub=g["ub"], W=g["W"], K=g["K"], baseline=g["baseline"], return_pred=True, solver="CLARABEL", **bkw)
             stp, op_ = call(lsq_linear, g["A"], g["B"], lb=g["lb"], ub=g["ub"], W=g["W"], K=g["K"], baseline=g["baseline"], model="poisson", return_pred=True, solver="CLARABEL", **bkw)
             ste, oe = call(lsq_linear_excitation, g["A"], g["B"], lb=g["lb"], ub=g["ub"], W=None, K=g["K"], baseline=g["baseline"], return_pred=True, **bkw)
+            if lim is not None:
+                stpl, opl = call(lsq_linear, g["A"], g["B"], lb=g["lb"], ub=g["ub"], W=g["W"], K=g["K"], baseline=g["baseline"], model="poisson", return_pred=True, **bkw, **lim)
+        if JUDGE_SCS_ITERATION_LIMIT and lim is not None and stpl is not None and "solver" in lim:
+            stpl, opl = call(lsq_linear, g["A"], g["B"], lb=g["lb"], ub=g["ub"], W=g["W"], K=g["K"], baseline=g["baseline"], model="poisson", return_pred=True, solver="SCS", max_iters=lim["max_iter"], **bkw)
         Ap, bp = S["Ap"], S["bp"]
         wv = WR      # (rows x receptors: the weights of each target)
         # excitation with channel weights: a sub-batch (one inside, the boundary and one outside target)
         stw, ow = (None, None)
+        # the sub-batch (own random stream): one inside target, one outside target and one more row, in an order of its own - in-gamut rows
+        # before the out-of-gamut ones (every 8th system, and whenever the draw says so), after them, or interleaved. Every row is a problem of
+        # its own, with ITS row of weights, wherever it stands in the batch.
+        ws = R.rng(8, si)
+        r_in, r_out = int(ws.integers(0, 2)), 3 + int(ws.integers(0, 2))
+        if si % 8 == 1:
+            r_out = 4       # (stratum: per-sample weights, in-gamut rows first, and the outside target whose minimiser depends on the weights)
+        WROWS = [r_in, [r_ for r_ in range(len(B)) if r_ not in (r_in, r_out)][int(ws.integers(len(B) - 2))], r_out]
+        if si % 8 == 1:
+            WROWS = sorted(WROWS, key=lambda r_: (not ingamut[r_], r_))
+        else:
+            WROWS = [WROWS[int(j_)] for j_ in ws.permutation(3)]
+        w_est = wk in ("vector", "matrix") and bool(ws.integers(2))
+        c["weighted_sub_batch"] = dict(rows=WROWS, kinds=[kinds[r_] for r_ in WROWS], via=("estimator: register_targets + fit()" if w_est else "function"))
         if wk != "none" and (both or whole or rr.random() < 0.5):
             R.count("excitation-fitted-with-weights:" + wk)
+            pos_in = [j_ for j_, r_ in enumerate(WROWS) if ingamut[r_]]; pos_out = [j_ for j_, r_ in enumerate(WROWS) if not ingamut[r_]]
+            R.count("excitation-fitted-with-weights:order:%s" % ("one kind only" if not pos_in or not pos_out else "in-gamut rows first" if max(pos_in) < min(pos_out)
+                                                                  else "out-of-gamut rows first" if max(pos_out) < min(pos_in) else "interleaved"))
+            R.count("excitation-fitted-with-weights:via:%s" % ("estimator.register_targets(B[, W])+fit()" if w_est else "function"))
             gBw = np.asarray(g["B"])[WROWS]
+            gBw = gBw.tolist() if isinstance(g["B"], list) else gBw
             gWw = g["W"] if wk != "matrix" else ([g["W"][i] for i in WROWS] if isinstance(g["W"], list) else np.asarray(g["W"])[WROWS])     # the sub-batch's rows of per-sample weights
-            stw, ow = call(lsq_linear_excitation, g["A"], gBw.tolist() if isinstance(g["B"], list) else gBw, lb=g["lb"], ub=g["ub"], W=gWw, K=g["K"], baseline=g["baseline"], return_pred=True, **bkw)
+            if w_est:
+                # the estimator's way to per-sample importance weights: register_targets(B, W) and fit() without a target; per-receptor
+                # weights are the constructor's w and register_targets(B) takes them over
+                e_ = mk_est(g["W"] if wk == "vector" else None)
+                stw, ow = call(e_.register_targets, gBw, gWw) if wk == "matrix" else call(e_.register_targets, gBw)
+                if stw == "ok":
+                    stw, ow = call(e_.fit, model="excitation", **bkw)
+                if stw == "ok":
+                    ow = (np.array(e_.X, dtype=float), np.array(e_.B, dtype=float))
+            else:
+                stw, ow = call(lsq_linear_excitation, g["A"], gBw, lb=g["lb"], ub=g["ub"], W=gWw, K=g["K"], baseline=g["baseline"], return_pred=True, **bkw)
             if stw == "ok":
                 for j, i in enumerate(WROWS):
                     xw = np.clip(ow[0][j], S["lb"], S["ub"])
                     R.driver.ask("w%s_%d" % (k, i), "excdoc", ms(Ap), vs(bp), vs(B[i]), vs(xw))                                    # documented objective
                     R.driver.ask("v%s_%d" % (k, i), "excdoc", ms(wfold(Ap, WR[i])), vs(wfold(bp, WR[i])), vs(wfold(B[i], WR[i])), vs(xw))         # on weighted captures
-        c["_w"] = (stw, ow); c["_ingamut"] = ingamut
+        c["_w"] = (stw, ow); c["_ingamut"] = ingamut; c["_wrows"] = WROWS; c["_lim"] = (stpl, opl)
         if stp == "ok":
             for i in range(len(B)):
                 R.driver.ask("p%s_%d" % (k, i), "poisgap", ns, ms(Ap), vs(bp), vs(wv[i]), vs(B[i]), vs(S["lb"]), ub_text(S["ub"]), vs(np.clip(op_[0][i], S["lb"], S["ub"])))
+        if stpl == "ok":
+            for i in range(len(B)):
+                R.driver.ask("l%s_%d" % (k, i), "poisgap", ns, ms(Ap), vs(bp), vs(wv[i]), vs(B[i]), vs(S["lb"]), ub_text(S["ub"]), vs(np.clip(np.asarray(opl[0])[i], S["lb"], S["ub"])))
         if ste == "ok":
             for i in range(len(B)):
                 R.driver.ask("e%s_%d" % (k, i), "excdoc", ms(Ap), vs(bp), vs(B[i]), vs(np.clip(oe[0][i], S["lb"], S["ub"])))
@@ -323,15 +453,19 @@ def run(R):
         # excitation difference of the WEIGHTED captures?  Same certificate with the weights folded into A', baseline' and target.
         stw, ow = c["_w"]
         if stw == "ok":
-            i = WROWS[-1]; W = wv[i]
-            thw = R.driver.get("v%s_%d" % (k, i)).rat()
-            c["_thw"] = thw
-            if float(thw) - EPS > 0:
-                tF = F(float(thw) - EPS)
-                Apw = np.array([[float(v) for v in r] for r in wfold(S["Ap"], W)]); bpw = np.array([float(v) for v in wfold(S["bp"], W)]); bw = np.array([float(v) for v in wfold(B[i], W)])
-                lam = farkas_hint(Apw, bpw, bw, float(tF), S["lb"], S["ub"])
-                if lam is not None:
-                    R.driver.ask("g%s_%d" % (k, i), "exclevel", S["ns"], ms(wfold(S["Ap"], W)), vs(wfold(S["bp"], W)), vs(wfold(B[i], W)), rs(tF), vs(lam), vs(S["lb"]), ub_text(S["ub"]))
+            c["_thw"] = {}
+            for i in c["_wrows"]:
+                if c["_ingamut"][i]:
+                    continue        # in-gamut rows: judged on the documented objective (minimum 0) below
+                W = wv[i]
+                thw = R.driver.get("v%s_%d" % (k, i)).rat()
+                c["_thw"][i] = thw
+                if float(thw) - EPS > 0:
+                    tF = F(float(thw) - EPS)
+                    Apw = np.array([[float(v) for v in r] for r in wfold(S["Ap"], W)]); bpw = np.array([float(v) for v in wfold(S["bp"], W)]); bw = np.array([float(v) for v in wfold(B[i], W)])
+                    lam = farkas_hint(Apw, bpw, bw, float(tF), S["lb"], S["ub"])
+                    if lam is not None:
+                        R.driver.ask("g%s_%d" % (k, i), "exclevel", S["ns"], ms(wfold(S["Ap"], W)), vs(wfold(S["bp"], W)), vs(wfold(B[i], W)), rs(tF), vs(lam), vs(S["lb"]), ub_text(S["ub"]))
         if ste != "ok":
             continue
         c["_that"] = []
@@ -354,12 +488,18 @@ def run(R):
         nontriv = (k,)
         R.case(pub, nontriv, sample=True)
         rngb = np.where(np.isfinite(S["ub"]), S["ub"] - S["lb"], 1.0)
-        stw, ow = c["_w"]
+        stw, ow = c["_w"]; WROWS = c["_wrows"]
+        stpl, opl = c["_lim"]
         allrows = list(range(len(B)))
-        for name, st, o, ridx in (("gaussian", stg, og, allrows), ("poisson", stp, op_, allrows), ("excitation", ste, oe, allrows), ("excitation+weights", stw, ow, WROWS)):
+        for name, st, o, ridx in (("gaussian", stg, og, allrows), ("poisson", stp, op_, allrows), ("excitation", ste, oe, allrows), ("excitation+weights", stw, ow, WROWS),
+                                  ("poisson+iteration-limit", stpl, opl, allrows)):
             if st is None:
                 continue
             sig = "C07:" + name
+            if name.endswith("+iteration-limit"):
+                R.count("%s:%s" % (name, "returned" if st == "ok" else "raised:" + st))
+                if (st == "runtime" and "did not converge" in str(o)) or st == "other:SolverError":
+                    continue        # loud: RuntimeError('Optimization did not converge.') / the solver's own error; nothing was returned
             if st == "other:SolverError":
                 # the conic solver itself gave up (cvxpy raises): a loud runtime failure, not a wrong answer; the model cannot exhibit it.
                 # counted, and a violation only when it becomes systematic (see the end of run)
@@ -376,6 +516,14 @@ def run(R):
                 kd = c["target_kinds"][i]
                 if kd == "inside":
                     tol = 2e-2 if not name.startswith("excitation") else 2e-2 * float(np.max((1 + B[i]) ** 2))   # excitation saturates: tolerance in excitation units
+                    if name.endswith("+iteration-limit"):
+                        # 2e-2 capture units is the accuracy of the solvers with DEFAULT settings (C04). A caller who limits the iterations may get the
+                        # solver's reduced-accuracy answer ('optimal_inaccurate', accepted by dreye): observed on the unchanged tree 0.077 capture units
+                        # (0.4 %) off an in-gamut target with solver=CLARABEL, max_iter=8 (seed 0, case s4) while the objective is within 1e-4 of its
+                        # minimum (the likelihood is flat there). Such a fit is judged on its objective (gap certificate below); the reproduction
+                        # of in-gamut targets is recorded only.
+                        R.count("%s:in-gamut-target-reproduced-to-2e-2(recorded-only):%s" % (name, bool(np.max(np.abs(Bp[j] - B[i])) <= tol)))
+                        continue
                     if np.max(np.abs(Bp[j] - B[i])) > tol:
                         R.failB(dict(pub, model=name, row=i, target=B[i], impl=Bp[j]), "%s model does not reproduce an in-gamut target (max error %.4g)" % (name, float(np.max(np.abs(Bp[j] - B[i])))),
                                 sig + ":in-gamut-not-reproduced:baseline=" + c["baseline_kind"])
@@ -391,20 +539,47 @@ def run(R):
                                 "excitation model with weights: the excitation difference at the returned intensities of an in-gamut (%s) target is %.4g, its minimum is 0" % (kd, float(tdoc)),
                                 sig + ":in-gamut-objective-not-minimal:baseline=" + c["baseline_kind"])
             if name == "excitation+weights":
-                i = WROWS[-1]; t = R.driver.get("g%s_%d" % (k, i)); okc = float(c["_thw"]) - EPS <= 0
-                if t is not None and not okc:
-                    tok = t.tok(); okc = tok not in ("none", "ERR") and parse_rat(tok) > 0
-                R.count("excitation+weights:outside-target:minimal-for-weighted-captures(recorded-only):%s" % okc)
-        if stp == "ok":
+                # the rows that are not in gamut: the model of a weighted fit folds the row's OWN weights into captures, baseline and target (the
+                # way K is folded) and takes the documented objective there. The answer must be within EPS of that minimum: certified by a
+                # level certificate, refuted by an in-bound point that the model evaluates exactly to a level lower by more than EPS. The
+                # weighted form is the implementation's reading of 'weights for the objective function' (it is not spelt out in the
+                # documentation): a refutation is therefore reported as model/implementation disagreement, not as a predicate failure.
+                for j, i in enumerate(WROWS):
+                    if i not in c["_thw"]:
+                        continue
+                    t = R.driver.get("g%s_%d" % (k, i)); okc = float(c["_thw"][i]) - EPS <= 0
+                    if t is not None and not okc:
+                        tok = t.tok(); okc = tok not in ("none", "ERR") and parse_rat(tok) > 0
+                    if okc:
+                        R.cert(True); R.count("excitation+weights:not-in-gamut-row:minimal-for-its-own-weights:certified"); continue
+                    Wi = wv[i]
+                    Apw = np.array([[float(v) for v in r] for r in wfold(Ap, Wi)]); bpw = np.array([float(v) for v in wfold(bp, Wi)]); bw = np.array([float(v) for v in wfold(B[i], Wi)])
+                    xw_ = lower_level_witness(Apw, bpw, bw, S["lb"], S["ub"], float(c["_thw"][i]))
+                    tw_ = None
+                    if xw_ is not None:
+                        R.driver.ask("y%s_%d" % (k, i), "excdoc", ms(wfold(Ap, Wi)), vs(wfold(bp, Wi)), vs(wfold(B[i], Wi)), vs(xw_))
+                        R.driver.run()
+                        tw_ = R.driver.get("y%s_%d" % (k, i))
+                        tw_ = tw_.rat() if tw_ is not None and tw_.t and tw_.t[0] != "ERR" else None
+                    if tw_ is not None and float(tw_) < float(c["_thw"][i]) - EPS:
+                        R.cert(False); R.count("excitation+weights:not-in-gamut-row:minimal-for-its-own-weights:refuted")
+                        R.failA(dict(pub, model=name, row=i, position_in_sub_batch=j, target=B[i], weights=Wi, impl=[X[j], Bp[j]], objective=float(c["_thw"][i]), better_point=xw_, better_objective=float(tw_)),
+                                "excitation model with weights: row %d of the sub-batch (target row %d, %s) is not fitted for its own row of weights: excitation difference of the weighted captures %.6g at the "
+                                "returned intensities, %.6g at the in-bound point %s (accuracy granted: %.0e)" % (j, i, c["target_kinds"][i], float(c["_thw"][i]), float(tw_), np.asarray(xw_).tolist(), EPS))
+                    else:
+                        R.count("excitation+weights:not-in-gamut-row:minimal-for-its-own-weights:undecided(recorded-only)")
+        for pname, ptag, stq, oq in (("poisson", "p", stp, op_), ("poisson+iteration-limit", "l", stpl, opl)):
+            if stq != "ok":
+                continue
             for i in range(len(B)):
-                t = R.driver.get("p%s_%d" % (k, i)); inb = t.bool(); minp = t.rat(); gap = t.tok()
+                t = R.driver.get("%s%s_%d" % (ptag, k, i)); inb = t.bool(); minp = t.rat(); gap = t.tok()
                 ok = inb and minp > 0 and gap != "none"
                 gv = float(parse_rat(gap)) if gap != "none" else float("inf")
                 scale = float(np.sum(wv[i] * (B[i] + 1)))
+                xh = np.clip(np.asarray(oq[0])[i], S["lb"], S["ub"])
                 if not ok and inb and minp > 0 and not np.all(np.isfinite(S["ub"])):
                     # a source without upper bound whose gradient entry is slightly negative: infinite gap at the answer.
                     # Evaluate the gap at a slightly larger in-bound point x' and carry it back (theorem poisson_shifted_gap_bound)
-                    xh = np.clip(op_[0][i], S["lb"], S["ub"])
                     for dl in (1e-6, 1e-4, 1e-2):
                         x2 = np.where(np.isfinite(S["ub"]), xh, xh + dl * (1.0 + np.abs(xh)))
                         R.driver.ask("q1", "poisgap", ns, ms(Ap), vs(bp), vs(wv[i]), vs(B[i]), vs(S["lb"]), ub_text(S["ub"]), vs(x2))
@@ -417,10 +592,28 @@ def run(R):
                             R.count("poisson-gap:shifted-certificate")
                             break
                 R.cert(ok and gv <= 2e-2 * scale)   # the obligation is the threshold below; how many reach the tighter 1e-3 is counted
-                R.count("poisson-gap<=1e-3:%s" % (gv <= 1e-3 * scale))
+                R.count("%s-gap<=1e-3:%s" % (pname, gv <= 1e-3 * scale))
+                if ok:
+                    R.notes["worst certified %s gap / scale (threshold 2e-2)" % pname] = max(R.notes.get("worst certified %s gap / scale (threshold 2e-2)" % pname, 0.0), gv / scale)
                 if not (ok and gv <= 2e-2 * scale):
-                    # is it really sub-optimal?  search: a better in-bound point along the projected negative gradient
-                    R.failA(dict(pub, row=i, gap=gv), "Poisson answer not certified near-optimal (gap %.4g, scale %.4g)" % (gv, scale))
+                    # not certified: is the answer really sub-optimal?  Search an in-bound point z with a lower negative log-likelihood (untrusted:
+                    # L-BFGS-B) and let the model bound the difference from below, exactly and without logarithms, by the tangent inequality AT z
+                    # (theorem poisson_tangent_x: obj(z) + g(z).(x - z) <= obj(x)). A point better by more than the granted 2e-2 x scale shows
+                    # that the answer is not a global minimiser (property predicate).
+                    z_ = poisson_better_point(Ap, bp, wv[i], B[i], S["lb"], S["ub"], xh) if (inb and minp > 0) else None
+                    if z_ is not None and np.all(z_ >= S["lb"]) and np.all(z_ <= S["ub"]):
+                        R.driver.ask("z%s_%d" % (k, i), "poistan", ns, ms(Ap), vs(bp), vs(wv[i]), vs(B[i]), vs(z_), vs(xh))
+                        R.driver.run()
+                        tz = R.driver.get("z%s_%d" % (k, i))
+                        if tz is not None and tz.t and tz.t[0] != "ERR":
+                            minpz = tz.rat(); worse_by = -float(tz.rat())       # obj(answer) - obj(z) >= g(z).answer - g(z).z
+                            if minpz > 0 and worse_by > 2e-2 * scale:
+                                R.count("%s:better-in-bound-point-exhibited" % pname)
+                                R.failB(dict(pub, model=pname, row=i, target=B[i], weights=wv[i], impl=[np.asarray(oq[0])[i], np.asarray(oq[1])[i]], better_point=z_, worse_by_at_least=worse_by, scale=scale),
+                                        "%s model: the returned intensities are not a global minimiser of the weighted Poisson negative log-likelihood: at the in-bound point %s it is lower by at least %.4g "
+                                        "(granted: %.4g)" % (pname, np.asarray(z_).tolist(), worse_by, 2e-2 * scale), "C07:%s:not-global-minimum:%s" % (pname, c["target_kinds"][i]))
+                                continue
+                    R.failA(dict(pub, row=i, gap=gv, model=pname), "%s answer not certified near-optimal (gap %.4g, scale %.4g)" % (pname, gv, scale))
         if ste == "ok":
             for i in range(len(B)):
                 that = c["_that"][i]
